@@ -115,7 +115,12 @@ structure RunSt where
   /-- everything written to standard output, including the markers of host calls -/
   out : Str := []
   polls : Nat := 0
+  /-- calls of user-defined functions in progress (`vm.depth`) -/
+  depth : Nat := 0
   deriving Inhabited
+
+/-- `maxCallDepth` of vm.go -/
+def maxCallDepth : Nat := 10000
 
 def lookupFn (M : Machine) (name : Str) : Option FnImpl := M.fns.reverse.lookup name
 def lookupUser (M : Machine) (name : Str) : Option UserFn := M.funcs.reverse.find? (fun f => f.name == name)
@@ -214,21 +219,23 @@ def strOp (op : Op) (l r : Str) : Res :=
 /-- same type and same printed form (OpCase, `in`) -/
 def sameTypeAndText (a b : Value) : Bool := a.type? == b.type? && a.inspect == b.inspect
 
-/-- a call of the function registered as "match" from inside the VM (OpMatches, OpCase) -/
-def callMatch (M : Machine) (st : RunSt) (a b : Value) : Except Err (Value × RunSt) :=
+/-- a call of the function registered as "match" from inside the VM (OpMatches, OpCase):
+    the value it returns and the text it wrote to standard output -/
+def callMatch (M : Machine) (a b : Value) : Except Err (Value × Str) :=
   match lookupFn M "match".toList with
   | none => .error (.error "matchLookup")
   | some f =>
     let r := callImpl "match".toList f [a, b]
-    let st := { st with out := st.out ++ r.out }
     match r.res with
-    | .val v => .ok (v, st)
+    | .val .nil => .error .panic   -- a nil result is dereferenced by whatever consumes it next
+    | .val v => .ok (v, r.out)
     | .panic => .error .panic
     | .unsupported => .error .unsupported
 
-/-- `executeBinaryOperation` -/
-def binop (M : Machine) (st : RunSt) (op : Op) (l r : Value) : Except Err (Value × RunSt) :=
-  let pure' (x : Res) : Except Err (Value × RunSt) := x.map (fun v => (v, st))
+/-- `executeBinaryOperation`: the result and the text written to standard output (only a host
+    function registered under the name "match" can write any) -/
+def binop (M : Machine) (op : Op) (l r : Value) : Except Err (Value × Str) :=
+  let pure' (x : Res) : Except Err (Value × Str) := x.map (fun v => (v, []))
   if op == .and then pure' (vbool (l.truthy && r.truthy))
   else if op == .or then pure' (vbool (l.truthy || r.truthy))
   else
@@ -242,9 +249,9 @@ def binop (M : Machine) (st : RunSt) (op : Op) (l r : Value) : Except Err (Value
   | .str a, .str b => pure' (strOp op a b)
   | .str a, .regexp b =>
       if op == .matches || op == .notMatches then
-        match callMatch M st (.str a) (.regexp b) with
+        match callMatch M (.str a) (.regexp b) with
         | .error e => .error e
-        | .ok (.bool m, st) => .ok (.bool (if op == .matches then m else !m), st)
+        | .ok (.bool m, o) => .ok (.bool (if op == .matches then m else !m), o)
         | .ok (_, _) => .error .panic      -- `ret.(*object.Boolean)` fails
       else pure' (err "unknownOperator")
   | _, _ =>
@@ -338,7 +345,228 @@ def isBinary : Op → Bool
   | .equal | .notEqual | .matches | .notMatches | .and | .or | .arrayIn => true
   | _ => false
 
-/-- the instruction loop of `Run` over `code`, from `ip` with value stack `stack` -/
+/-- what one instruction does: continue at `ip` with a new stack and state, or end the run -/
+inductive StepOut
+  | cont (ip : Nat) (stack : List Value) (st : RunSt)
+  | halt (r : Res) (st : RunSt)
+
+/-- the part of OpCall that runs a user-defined function: open a scope, bind the parameters, run
+    the body with a fresh stack (`runBody` is the nested `vm.Run`), restore on every way out -/
+def invoke (runBody : Bytes → RunSt → Res × RunSt) (uf : UserFn) (args : List Value) (st : RunSt) :
+    Res × RunSt :=
+  if st.depth ≥ maxCallDepth then (err "callDepth", st) else
+  let depth := st.depth
+  let st := { st with env := st.env.addScope, depth := st.depth + 1 }
+  if uf.params.length != args.length then (err "argCount", { st with depth := depth }) else
+  let env := (uf.params.zip args).foldl (fun e (p, a) => e.declare p a) st.env
+  let st := { st with env := env }
+  if uf.code.isEmpty then (err "emptyProgram", { st with depth := depth }) else
+  let r := finish st.env.scopes.length (runBody uf.code st)
+  (r.1, { r.2 with depth := depth })
+
+/-- build the pairs of OpHash from the popped items (value, key, value, key, … from the top) -/
+def buildHash (fuel : Nat) (xs : List Value) (acc : List HPair) : Except Err (List HPair) :=
+  match fuel, xs with
+  | 0, _ => .ok acc
+  | _, [] => .ok acc
+  | _, [_] => .ok acc
+  | fuel + 1, v :: k :: more =>
+    match k.hashKey? with
+    | none => .error (if k.type?.isNone then .panic else .error "hashKey")
+    | some hk => buildHash fuel more (HashMapModel.insert acc (.mk hk k v))
+
+/-- One instruction of `Run`'s loop (after the poll): opcode byte `opb` with operand `arg`, the
+    next instruction being at `next`. -/
+def step (M : Machine) (obj : HostVal) (codeLen : Nat) (runBody : Bytes → RunSt → Res × RunSt)
+    (opb arg next : Nat) (stack : List Value) (st : RunSt) : StepOut :=
+  let fail (cls : String) : StepOut := .halt (err cls) st
+  match Op.ofNat? opb with
+  | none => fail "unknownOpcode"
+  | some op =>
+    if isBinary op then
+      match stack with
+      | r :: l :: rest =>
+        match binop M op l r with
+        | .error e => .halt (.error e) st
+        | .ok (v, o) => .cont next (v :: rest) { st with out := st.out ++ o }
+      | _ => fail "underflow"
+    else
+    match op with
+    | .nop | .placeholder => .cont next stack st
+    | .push => .cont next (.int (Int64.ofNat arg) :: stack) st
+    | .constant =>
+      match M.consts[arg]? with
+      | none => fail "badConstant"
+      | some c => .cont next (c :: stack) st
+    | .lookup =>
+      match M.consts[arg]? with
+      | none => fail "badConstant"
+      | some c =>
+        match lookup obj st.env c.inspect with
+        | .error e => .halt (.error e) st
+        | .ok v => .cont next (v :: stack) st
+    | .local =>
+      match stack with
+      | name :: rest => .cont next rest { st with env := st.env.declare name.inspect .null }
+      | _ => fail "underflow"
+    | .set =>
+      match stack with
+      | name :: val :: rest => .cont next rest { st with env := st.env.set name.inspect val }
+      | _ => fail "underflow"
+    | .array =>
+      match popN arg stack with
+      | none => fail "underflow"
+      | some (els, rest) => .cont next (.array els :: rest) st
+    | .hash =>
+      -- pops value, key, value, key, …: pairs come off in reverse source order
+      match popN (2 * ((arg + 1) / 2)) stack with
+      | none => fail "underflow"
+      | some (items, rest) =>
+        match buildHash (items.length + 1) items.reverse [] with
+        | .error e => .halt (.error e) st
+        | .ok ps => .cont next (.hash ps :: rest) st
+    | .case =>
+      match stack with
+      | caseVal :: val :: rest =>
+        if sameTypeAndText val caseVal then .cont next (.bool true :: rest) st
+        else if caseVal.isType .REGEXP then
+          match callMatch M val caseVal with
+          | .error e => .halt (.error e) st
+          | .ok (v, o) => .cont next (v :: rest) { st with out := st.out ++ o }
+        else .cont next (.bool false :: rest) st
+      | _ => fail "underflow"
+    | .index =>
+      match stack with
+      | index :: left :: rest =>
+        match indexOp left index with
+        | .error e => .halt (.error e) st
+        | .ok v => .cont next (v :: rest) st
+      | _ => fail "underflow"
+    | .bang =>
+      match stack with
+      | v :: rest => .cont next (bangOp v :: rest) st
+      | _ => fail "underflow"
+    | .minus =>
+      match stack with
+      | v :: rest =>
+        match minusOp v with
+        | .error e => .halt (.error e) st
+        | .ok x => .cont next (x :: rest) st
+      | _ => fail "underflow"
+    | .squareRoot =>
+      match stack with
+      | v :: rest =>
+        match sqrtOp v with
+        | .error e => .halt (.error e) st
+        | .ok x => .cont next (x :: rest) st
+      | _ => fail "underflow"
+    | .true => .cont next (.bool true :: stack) st
+    | .false => .cont next (.bool false :: stack) st
+    | .void => .cont next (.void :: stack) st
+    | .return =>
+      match stack with
+      | v :: _ => .halt (.ok v) st
+      | _ => fail "underflow"
+    | .jump =>
+      if arg ≥ codeLen then fail "ipOOB" else .cont arg stack st
+    | .jumpIfFalse =>
+      match stack with
+      | c :: rest =>
+        if c.truthy then .cont next rest st
+        else if arg ≥ codeLen then fail "ipOOB"
+        else .cont arg rest st
+      | _ => fail "underflow"
+    | .call =>
+      match stack with
+      | fname :: rest0 =>
+        let name := fname.inspect
+        match popN arg rest0 with
+        | none => fail "underflow"
+        | some (args, rest) =>
+          match lookupFn M name with
+          | some f =>
+            let r := callImpl name f args
+            let st := { st with out := st.out ++ r.out }
+            match r.res with
+            | .panic => .halt (.error .panic) st
+            | .unsupported => .halt (.error .unsupported) st
+            | .val .nil => .halt (.error .panic) st
+            | .val .void => .cont next rest st
+            | .val v => .cont next (v :: rest) st
+          | none =>
+            match lookupUser M name with
+            | none => fail "noSuchFunction"
+            | some uf =>
+              match invoke runBody uf args st with
+              | (.error e, st) => .halt (.error e) st
+              | (.ok out, st) =>
+                let rest := if out.isType .VOID then rest else out :: rest
+                match st.env.removeScope with
+                | none => .halt (err "removeScope") st
+                | some env => .cont next rest { st with env := env }
+      | _ => fail "underflow"
+    | .iterationReset =>
+      let st := { st with env := st.env.addScope }
+      match stack with
+      | v :: rest =>
+        (match v with
+         | .array _ | .str _ | .hash _ => .cont next (.iterating v 0 :: rest) st
+         | .iterating inner _ => .cont next (.iterating inner 0 :: rest) st
+         | .nil => .halt (.error .panic) st
+         | _ => .halt (err "notIterable") st)
+      | _ => .halt (err "underflow") st
+    | .iterationNext =>
+      match stack with
+      | varName :: idxName :: it :: rest =>
+        let cur : Option (Value × Nat) :=
+          match it with
+          | .iterating v off => some (v, off)
+          | .array _ | .str _ | .hash _ => some (it, 0)
+          | _ => none
+        match cur with
+        | none => if it.type?.isNone then .halt (.error .panic) st else fail "notIterable"
+        | some (v, off) =>
+          match iterNext v off with
+          | some (x, idx) =>
+            let env := st.env.declare varName.inspect x
+            let env := if idxName.inspect.isEmpty then env else env.declare idxName.inspect idx
+            .cont next (.bool true :: .iterating v (off + 1) :: rest) { st with env := env }
+          | none =>
+            match st.env.removeScope with
+            | none => fail "removeScope"
+            | some env => .cont next (.bool false :: rest) { st with env := env }
+      | _ => fail "underflow"
+    | .range =>
+      match stack with
+      | hi :: lo :: rest =>
+        match rangeOp lo hi with
+        | .error e => .halt (.error e) st
+        | .ok v => .cont next (v :: rest) st
+      | _ => fail "underflow"
+    | .inc | .dec =>
+      match M.consts[arg]? with
+      | none => fail "badConstant"
+      | some c =>
+        let name := c.inspect
+        match lookup obj st.env name with
+        | .error e => .halt (.error e) st
+        | .ok v =>
+          let nv : Option Value :=
+            match v with
+            | .int i => some (.int (if op == .inc then i + 1 else i - 1))
+            | .float f => some (.float (if op == .inc then f + 1 else f - 1))
+            | _ => none
+          match nv with
+          | none => fail (if op == .inc then "incType" else "decType")
+          | some nv =>
+            let st := { st with env := st.env.set name nv }
+            match stack with
+            | _ :: rest => .cont next rest st
+            | _ => .halt (err "underflow") st   -- the variable has already been updated
+    | _ => fail "unknownOpcode"
+
+/-- the instruction loop of `Run` over `code`, from `ip` with value stack `stack`:
+    poll the context, fetch, decode, `step` -/
 def loop (M : Machine) (obj : HostVal) (code : Bytes) (fuel : Nat) (ip : Nat) (stack : List Value)
     (st : RunSt) : Res × RunSt :=
   match fuel with
@@ -352,209 +580,9 @@ def loop (M : Machine) (obj : HostVal) (code : Bytes) (fuel : Nat) (ip : Nat) (s
     let len := byteLength opb
     if len > 1 && ip + 3 > code.length then (.error .panic, st) else
     let arg := if len > 1 then decode16 (code.getD (ip+1) 0) (code.getD (ip+2) 0) else 0
-    let next := ip + len
-    let fail (cls : String) : Res × RunSt := (err cls, st)
-    match Op.ofNat? opb with
-    | none => fail "unknownOpcode"
-    | some op =>
-      if isBinary op then
-        match stack with
-        | r :: l :: rest =>
-          match binop M st op l r with
-          | .error e => (.error e, st)
-          | .ok (v, st) => loop M obj code fuel next (v :: rest) st
-        | _ => fail "underflow"
-      else
-      match op with
-      | .nop | .placeholder => loop M obj code fuel next stack st
-      | .push => loop M obj code fuel next (.int (Int64.ofNat arg) :: stack) st
-      | .constant =>
-        match M.consts[arg]? with
-        | none => fail "badConstant"
-        | some c => loop M obj code fuel next (c :: stack) st
-      | .lookup =>
-        match M.consts[arg]? with
-        | none => fail "badConstant"
-        | some c =>
-          match lookup obj st.env c.inspect with
-          | .error e => (.error e, st)
-          | .ok v => loop M obj code fuel next (v :: stack) st
-      | .local =>
-        match stack with
-        | name :: rest => loop M obj code fuel next rest { st with env := st.env.declare name.inspect .null }
-        | _ => fail "underflow"
-      | .set =>
-        match stack with
-        | name :: val :: rest => loop M obj code fuel next rest { st with env := st.env.set name.inspect val }
-        | _ => fail "underflow"
-      | .array =>
-        match popN arg stack with
-        | none => fail "underflow"
-        | some (els, rest) => loop M obj code fuel next (.array els :: rest) st
-      | .hash =>
-        -- pops value, key, value, key, …: pairs come off in reverse source order
-        match popN (2 * ((arg + 1) / 2)) stack with
-        | none => fail "underflow"
-        | some (items, rest) =>
-          let rec build (fuel : Nat) (xs : List Value) (acc : List HPair) : Except Err (List HPair) :=
-            match fuel, xs with
-            | 0, _ => .ok acc
-            | _, [] => .ok acc
-            | _, [_] => .ok acc
-            | fuel + 1, v :: k :: more =>
-              match k.hashKey? with
-              | none => .error (if k.type?.isNone then .panic else .error "hashKey")
-              | some hk => build fuel more (HashMapModel.insert acc (.mk hk k v))
-          match build (items.length + 1) items.reverse [] with
-          | .error e => (.error e, st)
-          | .ok ps => loop M obj code fuel next (.hash ps :: rest) st
-      | .case =>
-        match stack with
-        | caseVal :: val :: rest =>
-          if sameTypeAndText val caseVal then loop M obj code fuel next (.bool true :: rest) st
-          else if caseVal.isType .REGEXP then
-            match callMatch M st val caseVal with
-            | .error e => (.error e, st)
-            | .ok (v, st) => loop M obj code fuel next (v :: rest) st
-          else loop M obj code fuel next (.bool false :: rest) st
-        | _ => fail "underflow"
-      | .index =>
-        match stack with
-        | index :: left :: rest =>
-          match indexOp left index with
-          | .error e => (.error e, st)
-          | .ok v => loop M obj code fuel next (v :: rest) st
-        | _ => fail "underflow"
-      | .bang =>
-        match stack with
-        | v :: rest => loop M obj code fuel next (bangOp v :: rest) st
-        | _ => fail "underflow"
-      | .minus =>
-        match stack with
-        | v :: rest =>
-          match minusOp v with
-          | .error e => (.error e, st)
-          | .ok x => loop M obj code fuel next (x :: rest) st
-        | _ => fail "underflow"
-      | .squareRoot =>
-        match stack with
-        | v :: rest =>
-          match sqrtOp v with
-          | .error e => (.error e, st)
-          | .ok x => loop M obj code fuel next (x :: rest) st
-        | _ => fail "underflow"
-      | .true => loop M obj code fuel next (.bool true :: stack) st
-      | .false => loop M obj code fuel next (.bool false :: stack) st
-      | .void => loop M obj code fuel next (.void :: stack) st
-      | .return =>
-        match stack with
-        | v :: _ => (.ok v, st)
-        | _ => fail "underflow"
-      | .jump =>
-        if arg ≥ code.length then fail "ipOOB" else loop M obj code fuel arg stack st
-      | .jumpIfFalse =>
-        match stack with
-        | c :: rest =>
-          if c.truthy then loop M obj code fuel next rest st
-          else if arg ≥ code.length then fail "ipOOB"
-          else loop M obj code fuel arg rest st
-        | _ => fail "underflow"
-      | .call =>
-        match stack with
-        | fname :: rest0 =>
-          let name := fname.inspect
-          match popN arg rest0 with
-          | none => fail "underflow"
-          | some (args, rest) =>
-            match lookupFn M name with
-            | some f =>
-              let r := callImpl name f args
-              let st := { st with out := st.out ++ r.out }
-              match r.res with
-              | .panic => (.error .panic, st)
-              | .unsupported => (.error .unsupported, st)
-              | .val .nil => (.error .panic, st)
-              | .val .void => loop M obj code fuel next rest st
-              | .val v => loop M obj code fuel next (v :: rest) st
-            | none =>
-              match lookupUser M name with
-              | none => fail "noSuchFunction"
-              | some uf =>
-                let st := { st with env := st.env.addScope }
-                if uf.params.length != args.length then fail "argCount" else
-                let env := (uf.params.zip args).foldl (fun e (p, a) => e.declare p a) st.env
-                let st := { st with env := env }
-                -- the nested `vm.Run(obj)`
-                if uf.code.isEmpty then fail "emptyProgram" else
-                let depth := st.env.scopes.length
-                let (r, st) := finish depth (loop M obj uf.code fuel 0 [] st)
-                match r with
-                | .error e => (.error e, st)
-                | .ok out =>
-                  let rest := if out.isType .VOID then rest else out :: rest
-                  match st.env.removeScope with
-                  | none => fail "removeScope"
-                  | some env => loop M obj code fuel next rest { st with env := env }
-        | _ => fail "underflow"
-      | .iterationReset =>
-        let st := { st with env := st.env.addScope }
-        match stack with
-        | v :: rest =>
-          (match v with
-           | .array _ | .str _ | .hash _ => loop M obj code fuel next (.iterating v 0 :: rest) st
-           | .iterating inner _ => loop M obj code fuel next (.iterating inner 0 :: rest) st
-           | .nil => (.error .panic, st)
-           | _ => (err "notIterable", st))
-        | _ => (err "underflow", st)
-      | .iterationNext =>
-        match stack with
-        | varName :: idxName :: it :: rest =>
-          let cur : Option (Value × Nat) :=
-            match it with
-            | .iterating v off => some (v, off)
-            | .array _ | .str _ | .hash _ => some (it, 0)
-            | _ => none
-          match cur with
-          | none => if it.type?.isNone then (.error .panic, st) else fail "notIterable"
-          | some (v, off) =>
-            match iterNext v off with
-            | some (x, idx) =>
-              let env := st.env.declare varName.inspect x
-              let env := if idxName.inspect.isEmpty then env else env.declare idxName.inspect idx
-              loop M obj code fuel next (.bool true :: .iterating v (off + 1) :: rest) { st with env := env }
-            | none =>
-              match st.env.removeScope with
-              | none => fail "removeScope"
-              | some env => loop M obj code fuel next (.bool false :: rest) { st with env := env }
-        | _ => fail "underflow"
-      | .range =>
-        match stack with
-        | hi :: lo :: rest =>
-          match rangeOp lo hi with
-          | .error e => (.error e, st)
-          | .ok v => loop M obj code fuel next (v :: rest) st
-        | _ => fail "underflow"
-      | .inc | .dec =>
-        match M.consts[arg]? with
-        | none => fail "badConstant"
-        | some c =>
-          let name := c.inspect
-          match lookup obj st.env name with
-          | .error e => (.error e, st)
-          | .ok v =>
-            let nv : Option Value :=
-              match v with
-              | .int i => some (.int (if op == .inc then i + 1 else i - 1))
-              | .float f => some (.float (if op == .inc then f + 1 else f - 1))
-              | _ => none
-            match nv with
-            | none => fail (if op == .inc then "incType" else "decType")
-            | some nv =>
-              let st := { st with env := st.env.set name nv }
-              match stack with
-              | _ :: rest => loop M obj code fuel next rest st
-              | _ => (err "underflow", st)   -- the variable has already been updated
-      | _ => fail "unknownOpcode"
+    match step M obj code.length (fun c s => loop M obj c fuel 0 [] s) opb arg (ip + len) stack st with
+    | .cont ip' stack' st' => loop M obj code fuel ip' stack' st'
+    | .halt r st' => (r, st')
 
 /-- `vm.Run(obj)` at top level: clear the stack, run the main program, restore -/
 def run (M : Machine) (obj : HostVal) (fuel : Nat) (st : RunSt) : Res × RunSt :=
